@@ -1,5 +1,6 @@
 import SeqIoModel.Proofs.FastaStream
 import SeqIoModel.Proofs.FastqStream
+import SeqIoModel.Proofs.HistoryDeterminism
 /-!
 # C03 – results do not depend on buffer capacity, growth policy or read chunking
 
@@ -37,5 +38,41 @@ theorem refill_chunking_blind (b : BufRd) (script : List ReadEv) (chunk : Nat)
     (fillBuf b).1.buf = (fillBuf b2).1.buf ∧ (fillBuf b).2 = (fillBuf b2).2 ∧
     (fillBuf b).1.src.cursor = (fillBuf b2).1.src.cursor :=
   fillBuf_chunk_independent b script chunk h1 h2
+
+/-- FASTA, beyond plain iteration: any history of single reads, owned reads and seeks to record positions
+(in any order, any number of times) shows the caller exactly the same under any two configurations
+(capacity ≥ 3 × growing policy, e.g. the default one × failure-free read script × chunk limit).
+The proof never compares buffers: both runs are accepted by the abstract reader, which fixes the
+observation of each of these operations completely. -/
+theorem fasta_history_config_independent (inp : List UInt8)
+    (cap₁ cap₂ : Nat) (h₁ : 3 ≤ cap₁) (h₂ : 3 ≤ cap₂) (pol₁ pol₂ : Pol)
+    (hp₁ : Fasta.PolGrows pol₁) (hp₂ : Fasta.PolGrows pol₂)
+    (script₁ script₂ : List ReadEv) (hs₁ : NoFail script₁) (hs₂ : NoFail script₂) (chunk₁ chunk₂ : Nat)
+    (ops : List Fasta.Hist.Op) (hd : ∀ op ∈ ops, op.det = true) :
+    Fasta.Hist.runM (Fasta.Hist.mkMSt inp cap₁ pol₁ script₁ chunk₁) ops =
+      Fasta.Hist.runM (Fasta.Hist.mkMSt inp cap₂ pol₂ script₂ chunk₂) ops :=
+  Fasta.Hist.runA_det ops hd Fasta.Hist.aInit _ _
+    (Fasta.Hist.fasta_history_accepted inp cap₁ h₁ pol₁ hp₁ script₁ hs₁ chunk₁ ops)
+    (Fasta.Hist.fasta_history_accepted inp cap₂ h₂ pol₂ hp₂ script₂ hs₂ chunk₂ ops)
+
+/-- FASTQ: the same for histories of single reads, owned reads and seeks to the position of any item
+(a record or the invalid group) -/
+theorem fastq_history_config_independent (inp : List UInt8)
+    (cap₁ cap₂ : Nat) (h₁ : 3 ≤ cap₁) (h₂ : 3 ≤ cap₂) (pol₁ pol₂ : Pol)
+    (hp₁ : Fastq.PolGrows pol₁) (hp₂ : Fastq.PolGrows pol₂)
+    (script₁ script₂ : List ReadEv) (hs₁ : NoFail script₁) (hs₂ : NoFail script₂) (chunk₁ chunk₂ : Nat)
+    (ops : List Fastq.Hist.Op) (hd : ∀ op ∈ ops, op.det = true) :
+    Fastq.Hist.runM (Fastq.Hist.mkM inp cap₁ pol₁ script₁ chunk₁) ops =
+      Fastq.Hist.runM (Fastq.Hist.mkM inp cap₂ pol₂ script₂ chunk₂) ops := by
+  have hwf : ∀ op ∈ ops, op.wf = true := by
+    intro op hop
+    have := hd op hop
+    cases op <;> simp_all [Fastq.Hist.Op.det, Fastq.Hist.Op.wf]
+  exact Fastq.Hist.acceptsA_det ops hd {} _ _
+    (Fastq.fastq_history_accepted inp cap₁ h₁ pol₁ hp₁ script₁ hs₁ chunk₁ ops hwf)
+    (Fastq.fastq_history_accepted inp cap₂ h₂ pol₂ hp₂ script₂ hs₂ chunk₂ ops hwf)
+
+/-- the hypotheses are satisfiable: a history with a seek back to the first record -/
+example : ∀ op ∈ [Fasta.Hist.Op.next, .owned, .seekRec 0, .next], op.det = true := by decide
 
 end SeqIo.Thm.C03
